@@ -70,6 +70,20 @@ def cases(draw, tier="quick"):
     return c
 
 
+@st.composite
+def long_cases(draw, tier="quick"):
+    """Episodes of 20-50 timesteps over 4-8 contracts with up to 60 extra quotes (several per timestep and contract)."""
+    c = draw(E.episode_cases(tier, min_points=20, max_points=50, min_contracts=4, max_contracts=8, max_extras=60, leverage=1.0))
+    c["second_episode"] = draw(st.sampled_from([False, False, False, True]))
+    return c
+
+
+def run_long(case):
+    res = run(case)
+    res.tag("long")
+    return res
+
+
 def shock(draw, c):
     """One contract, held long, gaps up by a factor 16-40 and stays there: a single step multiplies the NLV by ~10
     (|log-return| > 2, far outside the range where any scaled / clipped variant coincides with the plain one)."""
@@ -171,6 +185,7 @@ def run_xy(case):
 
 PARTS = [
     Part("episodes", strategy=lambda tier: cases(tier), run=run, quick=2500, thorough=150000),
+    Part("long", strategy=lambda tier: long_cases(tier), run=run_long, quick=300, thorough=20000),
     Part("xy-rewards", strategy=lambda tier: xy_cases(tier), run=run_xy, quick=400, thorough=12000),
 ]
 RULE = RULE + (" xy-rewards: generated TradingEnvXY configurations (xylab) with reward_clipping in {0.5,1,2,3} and risk_aversion in {0,0.1,0.5}, "
